@@ -14,7 +14,11 @@ pub enum Val { Str(StrValue), Num(u8), Arr(u8) }
 pub struct StrValue(pub &'static str);
 impl StrValue { pub fn to_string(&self) -> String { let mut s = String::new(); s.push_str(self.0); s } }
 pub struct ToStringFormat;
-impl ToStringFormat { pub fn manifest(&self, v: Val) -> Result<String> { let mut s = String::new(); match v { Val::Num(_) => s.push_str("7"), Val::Arr(_) => s.push_str("[\"x<&\"]"), Val::Str(x) => s.push_str(x.0) } Ok(s) } }
+// both methods of the real ManifestFormat trait (manifest_buf + the provided manifest)
+impl ToStringFormat {
+    pub fn manifest_buf(&self, v: Val, s: &mut String) -> Result<()> { match v { Val::Num(_) => s.push_str("7"), Val::Arr(_) => s.push_str("[\"x<&\"]"), Val::Str(x) => s.push_str(x.0) } Ok(()) }
+    pub fn manifest(&self, v: Val) -> Result<String> { let mut s = String::new(); self.manifest_buf(v, &mut s)?; Ok(s) }
+}
 #[derive(Debug, Clone, Copy, PartialEq, Eq)]
 pub struct ObjValue { pub n: usize, pub vals: [Val; 2] }
 pub struct OIter { o: ObjValue, i: usize }
